@@ -1,431 +1,33 @@
 import WfModel.Timers
-import WfProofs.SerialLemmas
+import WfProofs.EngineErase
 /-!
 Helper lemmas for C14 (3): **the clock of a replay does not matter** (for policies that do not
 look at elapsed time).
 
 `replay_ticks_stream` reduces every persisted tick at `time.time()` of the replay, not at the time
-the tick was processed live.  The only place where the reducer stores its `now` argument in the
-state is `first_attempt_at` of a freshly started in-progress entry (`event.first_attempt_at or
-now_seconds`).  Two states that agree except for those values (`Sim`) are mapped by every tick — at
-any two clocks — to states that again agree except for those values, the emitted commands agree
-except for time-derived payloads (`cE`), and `to_serialized` forgets `first_attempt_at` of
-in-progress entries altogether, so the reloaded context is the same.
+the tick was processed live.  The reducer stores its `now` argument in the state as
+`first_attempt_at` of a freshly started in-progress entry (`event.first_attempt_at or
+now_seconds`); from there the value is copied into the waiter the invocation registers when it
+suspends and into the attempt that replays it.  Two states that agree except for
+`first_attempt_at` values (`Sim`) are mapped by every tick — at any two clocks — to states that
+again agree except for those values, the emitted commands agree except for time-derived payloads
+(`cE`), and the serialised forms agree in the same sense (`roundtrip_sim`).
 -/
 set_option linter.unusedVariables false
 namespace Engine
 
-def ipE (ip : InProg) : InProg := { ip with firstAt := 0 }
+/-! The reducer part (one tick at two clocks, `reduce_sim`; commands up to `cE`; `roundtrip_sim`)
+is shared with C11/C13: `WfProofs/EngineErase.lean`.  Names used by the C14 files: -/
 
-structure SSim (a b : StepState) : Prop where
-  queue : a.queue = b.queue
-  collected : a.collected = b.collected
-  waiters : a.waiters = b.waiters
-  inProg : a.inProg.map ipE = b.inProg.map ipE
+abbrev SSim := SimSS
+abbrev Sim := SimSt
+abbrev TimeIndep := TimeFree
 
-def Sim (st st' : State) : Prop := st.isRunning = st'.isRunning ∧ ∀ n, SSim (st.workers n) (st'.workers n)
-
-/-- the policy's decision does not depend on elapsed time -/
-def TimeIndep (pol : Policy) : Prop := ∀ s e e' f x, pol s e f x = pol s e' f x
-
-/-- commands up to time-derived payloads (retry info of re-queued events, elapsed seconds in
-failure telemetry); exit commands and the crash marker are kept as they are -/
-def cE : Cmd → Cmd
-  | .queueEvent _ _ _ => .scheduleIdleCheck
-  | .publish _ => .scheduleIdleCheck
-  | c => c
-
-theorem SSim.rfl' (a : StepState) : SSim a a := ⟨rfl, rfl, rfl, rfl⟩
-theorem Sim.rfl' (st : State) : Sim st st := ⟨rfl, fun n => SSim.rfl' _⟩
-theorem SSim.symm' {a b : StepState} (h : SSim a b) : SSim b a := ⟨h.1.symm, h.2.symm, h.3.symm, h.4.symm⟩
-theorem Sim.symm' {a b : State} (h : Sim a b) : Sim b a := ⟨h.1.symm, fun n => (h.2 n).symm'⟩
-theorem SSim.trans' {a b c : StepState} (h : SSim a b) (g : SSim b c) : SSim a c :=
-  ⟨h.1.trans g.1, h.2.trans g.2, h.3.trans g.3, h.4.trans g.4⟩
-theorem Sim.trans' {a b c : State} (h : Sim a b) (g : Sim b c) : Sim a c :=
-  ⟨h.1.trans g.1, fun n => (h.2 n).trans' (g.2 n)⟩
-
-theorem SSim.length {a b : StepState} (h : SSim a b) : a.inProg.length = b.inProg.length := by
-  have := congrArg List.length h.inProg
-  simpa using this
-
-theorem SSim.isEmpty {a b : StepState} (h : SSim a b) : a.inProg.isEmpty = b.inProg.isEmpty := by
-  have := h.length
-  cases ha : a.inProg <;> cases hb : b.inProg <;> simp_all
-
-theorem SSim.usedIds {a b : StepState} (h : SSim a b) : usedIds a = usedIds b := by
-  have := congrArg (List.map (·.wid)) h.inProg
-  simpa [Engine.usedIds, List.map_map, Function.comp_def, ipE] using this
-
-theorem Sim.set {st st' : State} (h : Sim st st') (s : Nat) {a b : StepState} (hab : SSim a b) :
-    Sim (st.set s a) (st'.set s b) := by
-  refine ⟨h.1, fun n => ?_⟩
-  simp only [State.set]
-  split
-  · exact hab
-  · exact h.2 n
-
-/-! ### `_add_or_enqueue_event`, the queue drain, waiter resolution -/
-
-theorem addOrEnqueue_sim (att : Attempt) (step : Nat) {a b : StepState} (nw : Nat) (now now' : Int) (h : SSim a b) :
-    SSim (addOrEnqueue att step a nw now).1 (addOrEnqueue att step b nw now').1 ∧
-      (addOrEnqueue att step a nw now).2 = (addOrEnqueue att step b nw now').2 := by
-  unfold addOrEnqueue
-  rw [h.length, show freeIds a nw = freeIds b nw by simp [freeIds, h.usedIds]]
-  split
-  · split
-    · refine ⟨⟨h.queue, h.collected, h.waiters, ?_⟩, rfl⟩
-      simp only [List.map_append, h.inProg, List.map_cons, List.map_nil, ipE, h.collected, h.waiters]
-    · exact ⟨h, rfl⟩
-  · exact ⟨⟨by simp [h.queue], h.collected, h.waiters, h.inProg⟩, rfl⟩
-
-theorem drain_sim (step nw : Nat) (now now' : Int) :
-    ∀ (fuel : Nat) {a b : StepState}, SSim a b →
-      SSim (drain step nw now fuel a).1 (drain step nw now' fuel b).1 ∧
-        (drain step nw now fuel a).2 = (drain step nw now' fuel b).2
-  | 0, a, b, h => by simpa [drain] using h
-  | fuel + 1, a, b, h => by
-    unfold drain
-    rw [← h.queue]
-    cases hq : a.queue with
-    | nil => exact ⟨h, rfl⟩
-    | cons x q =>
-      simp only
-      rw [h.length]
-      split
-      · have hab : SSim { a with queue := q } { b with queue := q } := ⟨rfl, h.collected, h.waiters, h.inProg⟩
-        obtain ⟨h1, c1⟩ := addOrEnqueue_sim x step nw now now' hab
-        obtain ⟨h2, c2⟩ := drain_sim step nw now now' fuel h1
-        exact ⟨h2, by rw [c1, c2]⟩
-      · exact ⟨h, rfl⟩
-
-theorem resolveLoop_sim (ev : Ev) (step nw : Nat) (now now' : Int) :
-    ∀ (rest done : List Waiter) {a b : StepState} (cmds : List Cmd) (hd : Bool), SSim a b →
-      SSim (resolveLoop ev step nw now done rest a cmds hd).1 (resolveLoop ev step nw now' done rest b cmds hd).1 ∧
-        (resolveLoop ev step nw now done rest a cmds hd).2 = (resolveLoop ev step nw now' done rest b cmds hd).2
-  | [], done, a, b, cmds, hd, h => by
-    simp only [resolveLoop, and_true]
-    exact ⟨h.queue, h.collected, rfl, h.inProg⟩
-  | x :: rest, done, a, b, cmds, hd, h => by
-    unfold resolveLoop
-    split
-    · have hab : SSim { a with waiters := done ++ { x with resolved := some ev } :: rest }
-          { b with waiters := done ++ { x with resolved := some ev } :: rest } := ⟨h.queue, h.collected, rfl, h.inProg⟩
-      obtain ⟨h1, c1⟩ := addOrEnqueue_sim { ev := x.ev } step nw now now' hab
-      simp only [c1]
-      exact resolveLoop_sim ev step nw now now' rest _ _ true h1
-    · exact resolveLoop_sim ev step nw now now' rest _ cmds hd h
-
-/-! ### `_process_add_event_tick` -/
-
-structure AccSim (a b : AddAcc) : Prop where
-  st : Sim a.st b.st
-  cmds : a.cmds = b.cmds
-  handled : a.handled = b.handled
-  woken : a.woken = b.woken
-
-theorem addEventWaiters_sim (cfg : Cfg) (ev : Ev) (target : Option Nat) (now now' : Int) :
-    ∀ (cs : List StepCfg) {a b : AddAcc}, AccSim a b →
-      AccSim (addEventWaiters cfg ev target now cs a) (addEventWaiters cfg ev target now' cs b)
-  | [], a, b, h => by simpa [addEventWaiters] using h
-  | c :: cs, a, b, h => by
-    unfold addEventWaiters
-    split
-    · exact addEventWaiters_sim cfg ev target now now' cs h
-    · simp only []
-      have hs := h.st.2 c.name
-      obtain ⟨h1, c1⟩ := resolveLoop_sim ev c.name c.numWorkers now now' (a.st.workers c.name).waiters [] [] false hs
-      rw [← hs.waiters]
-      apply addEventWaiters_sim cfg ev target now now' cs
-      rw [c1]
-      split
-      · exact ⟨h.st.set c.name h1, by rw [h.cmds], rfl, by rw [h.woken]⟩
-      · exact h
-
-theorem addEventRoute_sim (att : Attempt) (target : Option Nat) (now now' : Int) :
-    ∀ (cs : List StepCfg) {a b : AddAcc}, AccSim a b →
-      AccSim (addEventRoute att target now cs a) (addEventRoute att target now' cs b)
-  | [], a, b, h => by simpa [addEventRoute] using h
-  | c :: cs, a, b, h => by
-    unfold addEventRoute
-    rw [← h.woken]
-    split
-    · exact addEventRoute_sim att target now now' cs h
-    · split
-      · obtain ⟨h1, c1⟩ := addOrEnqueue_sim att c.name c.numWorkers now now' (h.st.2 c.name)
-        apply addEventRoute_sim att target now now' cs
-        exact ⟨h.st.set c.name h1, by rw [h.cmds, c1], rfl, rfl⟩
-      · exact addEventRoute_sim att target now now' cs h
-
-theorem checkIdle_sim (cfg : Cfg) {st st' : State} (h : Sim st st') : checkIdle cfg st = checkIdle cfg st' := by
-  unfold checkIdle
-  rw [h.1]
-  congr 1
-  apply List.all_congr rfl
-  intro s
-  simp only [stepQuiet, (h.2 s).queue, (h.2 s).isEmpty]
-
-theorem processAddEvent_sim (cfg : Cfg) (att : Attempt) (target : Option Nat) {st st' : State} (now now' : Int)
-    (h : Sim st st') :
-    Sim (processAddEvent cfg att target st now).1 (processAddEvent cfg att target st' now').1 ∧
-      (processAddEvent cfg att target st now).2 = (processAddEvent cfg att target st' now').2 := by
-  have h0 : AccSim { st := addEventStart att st } { st := addEventStart att st' } := by
-    refine ⟨?_, rfl, rfl, rfl⟩
-    unfold addEventStart
-    split
-    · exact ⟨rfl, h.2⟩
-    · exact h
-  have h1 := addEventWaiters_sim cfg att.ev target now now' cfg.steps h0
-  have h2 := addEventRoute_sim att target now now' cfg.steps h1
-  simp only [processAddEvent]
-  refine ⟨h2.st, ?_⟩
-  rw [h2.cmds]
-  congr 1
-  unfold unhandledCmds
-  rw [h2.handled, checkIdle_sim cfg h2.st]
-
-
-/-! ### `_process_step_result_tick` -/
-
-theorem ipE_eq {x y : InProg} (h : ipE x = ipE y) :
-    x.ev = y.ev ∧ x.wid = y.wid ∧ x.snapEvents = y.snapEvents ∧ x.snapWaiters = y.snapWaiters ∧
-      x.attempts = y.attempts ∧ x.lastExc = y.lastExc ∧ x.lastFailedAt = y.lastFailedAt ∧ x.rc = y.rc := by
-  simp only [ipE, InProg.mk.injEq] at h
-  obtain ⟨h1, h2, h3, h4, h5, _, h6, h7, h8⟩ := h
-  exact ⟨h1, h2, h3, h4, h5, h6, h7, h8⟩
-
-structure RSim (a b : ResAcc) : Prop where
-  st : Sim a.st b.st
-  cmds : a.cmds.map cE = b.cmds.map cE
-  out : a.out = b.out
-  still : a.stillInProgress = b.stillInProgress
-  exec : ipE a.exec = ipE b.exec
-
-theorem retryDecision_indep {pol : Policy} (hp : TimeIndep pol) (cfg : Cfg) (step : Nat) (e e' : Int) (f x : Nat) :
-    retryDecision cfg pol step e f x = retryDecision cfg pol step e' f x := by
-  unfold retryDecision
-  split
-  · split
-    · exact hp _ _ _ _ _
-    · rfl
-  · rfl
-
-theorem clearAll_sim {st st' : State} (h : Sim st st') :
-    Sim (clearAll { st with isRunning := false }) (clearAll { st' with isRunning := false }) := by
-  refine ⟨rfl, fun n => ?_⟩
-  have := h.2 n
-  exact ⟨this.queue, rfl, rfl, this.inProg⟩
-
-theorem applyRes_sim (cfg : Cfg) {pol : Policy} (hp : TimeIndep pol) (step : Nat) (tickEv : Ev) (dc : Bool)
-    {a b : ResAcc} (h : RSim a b) (res : Res) :
-    RSim (applyRes cfg pol step tickEv dc a res) (applyRes cfg pol step tickEv dc b res) := by
-  obtain ⟨e1, e2, e3, e4, e5, e6, e7, e8⟩ := ipE_eq h.exec
-  have hs := h.st.2 step
-  cases res with
-  | result r =>
-    cases r with
-    | none => exact ⟨h.st, h.cmds, rfl, h.still, h.exec⟩
-    | some ev =>
-      simp only [applyRes]
-      split
-      · exact ⟨clearAll_sim h.st, by simp [List.map_append, h.cmds], rfl, h.still, h.exec⟩
-      · exact ⟨h.st, by simp [List.map_append, h.cmds, cE], rfl, h.still, h.exec⟩
-  | failed exc failedAt =>
-    simp only [applyRes]
-    rw [retryDecision_indep hp cfg step (failedAt - a.exec.firstAt) (failedAt - b.exec.firstAt), e5]
-    cases retryDecision cfg pol step (failedAt - b.exec.firstAt) (b.exec.attempts + 1) exc with
-    | retry d => exact ⟨h.st, by simp [List.map_append, h.cmds, cE], h.out, h.still, h.exec⟩
-    | raise => exact ⟨h.st, by simp [List.map_append, h.cmds, cE], h.out, h.still, h.exec⟩
-    | stop =>
-      simp only
-      cases handlerOwner cfg step with
-      | none =>
-        exact ⟨⟨rfl, h.st.2⟩, by simp [List.map_append, h.cmds, cE], h.out, h.still, h.exec⟩
-      | some hm =>
-        obtain ⟨hh, maxRec⟩ := hm
-        simp only [e8]
-        split
-        · exact ⟨h.st, by simp [List.map_append, h.cmds, cE], h.out, h.still, h.exec⟩
-        · exact ⟨⟨rfl, h.st.2⟩, by simp [List.map_append, h.cmds, cE], h.out, h.still, h.exec⟩
-  | addCollected buf ev =>
-    simp only [applyRes, hs.collected, e3, e2, h.still]
-    split
-    · exact h
-    split
-    · refine ⟨h.st.set step ⟨hs.queue, rfl, hs.waiters, hs.inProg⟩, by simp [List.map_append, h.cmds, cE], h.out, rfl, ?_⟩
-      simp only [ipE, InProg.mk.injEq, e1, e2, e4, e5, e6, e7, e8, and_self]
-    · exact ⟨h.st.set step ⟨hs.queue, rfl, hs.waiters, hs.inProg⟩, h.cmds, h.out, rfl, h.exec⟩
-  | deleteCollected buf =>
-    simp only [applyRes]
-    split
-    · exact ⟨h.st.set step ⟨hs.queue, by rw [hs.collected], hs.waiters, hs.inProg⟩, h.cmds, h.out, h.still, h.exec⟩
-    · exact h
-  | addWaiter wid waiterEv req timeout ty =>
-    simp only [applyRes, hs.waiters, e1]
-    split
-    · exact ⟨h.st.set step ⟨hs.queue, hs.collected, rfl, hs.inProg⟩, h.cmds, h.out, h.still, h.exec⟩
-    · exact ⟨h.st.set step ⟨hs.queue, hs.collected, rfl, hs.inProg⟩, by simp [List.map_append, h.cmds], h.out, h.still, h.exec⟩
-  | deleteWaiter wid =>
-    simp only [applyRes]
-    split
-    · exact ⟨h.st.set step ⟨hs.queue, hs.collected, by rw [hs.waiters], hs.inProg⟩, h.cmds, h.out, h.still, h.exec⟩
-    · exact h
-
-theorem foldl_applyRes_sim (cfg : Cfg) {pol : Policy} (hp : TimeIndep pol) (step : Nat) (tickEv : Ev) (dc : Bool) :
-    ∀ (res : List Res) {a b : ResAcc}, RSim a b →
-      RSim (res.foldl (applyRes cfg pol step tickEv dc) a) (res.foldl (applyRes cfg pol step tickEv dc) b)
-  | [], a, b, h => h
-  | r :: rs, a, b, h => foldl_applyRes_sim cfg hp step tickEv dc rs (applyRes_sim cfg hp step tickEv dc h r)
-
-
-theorem map_modifyFirst_ipE (k : Nat) (e : InProg) : ∀ (l : List InProg),
-    (modifyFirst (fun w => w.wid == k) (fun _ => e) l).map ipE =
-      modifyFirst (fun w => w.wid == k) (fun _ => ipE e) (l.map ipE)
-  | [] => rfl
-  | x :: xs => by
-    simp only [modifyFirst, List.map_cons]
-    have : (ipE x).wid = x.wid := rfl
-    rw [this]
-    split
-    · simp
-    · simp [map_modifyFirst_ipE k e xs]
-
-theorem map_eraseP_ipE (k : Nat) (l : List InProg) :
-    (l.eraseP (fun w => w.wid == k)).map ipE = (l.map ipE).eraseP (fun w => w.wid == k) := by
-  rw [List.eraseP_map]
-  rfl
-
-theorem cE_isExit (c : Cmd) : (cE c).isExit = c.isExit := by cases c <;> rfl
-
-theorem any_isExit_cE (cmds : List Cmd) : cmds.any Cmd.isExit = (cmds.map cE).any Cmd.isExit := by
-  simp [List.any_map, Function.comp_def, cE_isExit]
-
-theorem settle_sim {a b : ResAcc} (h : RSim a b) (step worker : Nat) (tickEv : Ev) :
-    SSim (settle a step worker tickEv).1 (settle b step worker tickEv).1 ∧
-      (settle a step worker tickEv).2.map cE = (settle b step worker tickEv).2.map cE := by
-  have hs := h.st.2 step
-  unfold settle
-  rw [h.still]
-  split
-  · refine ⟨⟨hs.queue, hs.collected, hs.waiters, ?_⟩, h.cmds⟩
-    simp only [map_modifyFirst_ipE, hs.inProg, h.exec]
-  · refine ⟨⟨hs.queue, hs.collected, hs.waiters, ?_⟩, ?_⟩
-    · simp only [map_eraseP_ipE, hs.inProg]
-    · simp [h.cmds, h.out, cE]
-
-theorem processStepResult_sim (cfg : Cfg) {pol : Policy} (hp : TimeIndep pol) (step worker : Nat) (tickEv : Ev)
-    (res : List Res) {st st' : State} (now now' : Int) (h : Sim st st') :
-    Sim (processStepResult cfg pol step worker tickEv res st now).1
-        (processStepResult cfg pol step worker tickEv res st' now').1 ∧
-      (processStepResult cfg pol step worker tickEv res st now).2.map cE =
-        (processStepResult cfg pol step worker tickEv res st' now').2.map cE := by
-  unfold processStepResult
-  split
-  · exact ⟨h, rfl⟩
-  · have hs := h.2 step
-    have hf : ((st.workers step).inProg.find? (fun w => w.wid == worker)).map ipE =
-        ((st'.workers step).inProg.find? (fun w => w.wid == worker)).map ipE := by
-      have := congrArg (List.find? (fun w : InProg => w.wid == worker)) hs.inProg
-      simpa [List.find?_map, Function.comp_def, ipE] using this
-    cases h1 : (st.workers step).inProg.find? (fun w => w.wid == worker) with
-    | none =>
-      rw [h1] at hf
-      cases h2 : (st'.workers step).inProg.find? (fun w => w.wid == worker) with
-      | none => exact ⟨h, rfl⟩
-      | some y => rw [h2] at hf; simp at hf
-    | some x =>
-      rw [h1] at hf
-      cases h2 : (st'.workers step).inProg.find? (fun w => w.wid == worker) with
-      | none => rw [h2] at hf; simp at hf
-      | some y =>
-        rw [h2] at hf
-        simp only [Option.map_some, Option.some.injEq] at hf
-        simp only
-        have hacc := foldl_applyRes_sim cfg hp step tickEv (res.any isResult) res
-          (a := { st := st, exec := x }) (b := { st := st', exec := y }) ⟨h, rfl, rfl, rfl, hf⟩
-        obtain ⟨hset, hcm⟩ := settle_sim hacc step worker tickEv
-        rw [any_isExit_cE, hacc.cmds, ← any_isExit_cE]
-        split
-        · exact ⟨hacc.st.set step hset, hcm⟩
-        · rw [hset.queue]
-          obtain ⟨hd, hdc⟩ := drain_sim step (cfg.nw step) now now'
-            (settle (res.foldl (applyRes cfg pol step tickEv (res.any isResult)) { st := st', exec := y }) step worker tickEv).1.queue.length hset
-          exact ⟨hacc.st.set step hd, by simp [List.map_append, hcm, hdc]⟩
-
-theorem processWaiterTimeout_sim (cfg : Cfg) (step waiter : Nat) {st st' : State} (now now' : Int) (h : Sim st st') :
-    Sim (processWaiterTimeout cfg step waiter st now).1 (processWaiterTimeout cfg step waiter st' now').1 ∧
-      (processWaiterTimeout cfg step waiter st now).2 = (processWaiterTimeout cfg step waiter st' now').2 := by
-  have hs := h.2 step
-  unfold processWaiterTimeout
-  split
-  · exact ⟨h, rfl⟩
-  · simp only [← hs.waiters]
-    cases (st.workers step).waiters.find? (fun w => w.wid == waiter) with
-    | none => exact ⟨h, rfl⟩
-    | some w =>
-      simp only
-      split
-      · exact ⟨h, rfl⟩
-      · have hab : SSim { st.workers step with waiters := modifyFirst (fun x => x.wid == waiter) (fun x => { x with timedOut := true }) (st.workers step).waiters }
-            { st'.workers step with waiters := modifyFirst (fun x => x.wid == waiter) (fun x => { x with timedOut := true }) (st.workers step).waiters } :=
-          ⟨hs.queue, hs.collected, rfl, hs.inProg⟩
-        obtain ⟨h1, c1⟩ := addOrEnqueue_sim { ev := w.ev } step (cfg.nw step) now now' hab
-        exact ⟨h.set step h1, c1⟩
-
-/-- **one tick, two clocks** -/
-theorem reduce_sim (cfg : Cfg) {pol : Policy} (hp : TimeIndep pol) (t : Tick) {st st' : State} (now now' : Int)
-    (h : Sim st st') :
-    Sim (reduce cfg pol t st now).1 (reduce cfg pol t st' now').1 ∧
-      (reduce cfg pol t st now).2.map cE = (reduce cfg pol t st' now').2.map cE := by
-  have wi : ∀ {r r' : State × List Cmd}, Sim r.1 r'.1 → r.2.map cE = r'.2.map cE →
-      Sim (if checkIdle cfg r.1 then (r.1, r.2 ++ [Cmd.scheduleIdleCheck]) else r).1
-          (if checkIdle cfg r'.1 then (r'.1, r'.2 ++ [Cmd.scheduleIdleCheck]) else r').1 ∧
-        (if checkIdle cfg r.1 then (r.1, r.2 ++ [Cmd.scheduleIdleCheck]) else r).2.map cE =
-          (if checkIdle cfg r'.1 then (r'.1, r'.2 ++ [Cmd.scheduleIdleCheck]) else r').2.map cE := by
-    intro r r' hs hc
-    rw [checkIdle_sim cfg hs]
-    split
-    · exact ⟨hs, by simp [List.map_append, hc]⟩
-    · exact ⟨hs, hc⟩
-  cases t with
-  | stepResult s w e rs =>
-    obtain ⟨h1, c1⟩ := processStepResult_sim cfg hp s w e rs now now' h
-    exact wi h1 c1
-  | addEvent att tgt =>
-    obtain ⟨h1, c1⟩ := processAddEvent_sim cfg att tgt now now' h
-    exact wi h1 (by rw [c1])
-  | cancelRun => exact wi (r := (st, _)) (r' := (st', _)) h rfl
-  | idleRelease => exact ⟨h, rfl⟩
-  | publish ev => exact wi (r := (st, _)) (r' := (st', _)) h rfl
-  | timeout tt =>
-    have ha : activeSteps cfg st = activeSteps cfg st' := by
-      unfold activeSteps
-      apply List.filter_congr
-      intro s _
-      rw [(h.2 s).isEmpty]
-    exact wi (r := ({ st with isRunning := false }, _)) (r' := ({ st' with isRunning := false }, _)) ⟨rfl, h.2⟩ (by simp [ha])
-  | waiterTimeout s w =>
-    obtain ⟨h1, c1⟩ := processWaiterTimeout_sim cfg s w now now' h
-    exact wi h1 (by rw [c1])
-  | idleCheck =>
-    simp only [reduce]
-    rw [checkIdle_sim cfg h]
-    split <;> exact ⟨h, rfl⟩
-
+theorem Sim.rfl' (st : State) : Sim st st := SimSt.refl st
+theorem SimSt.symm' {a b : State} (h : Sim a b) : Sim b a := h.symm
+theorem SimSt.trans' {a b c : State} (h : Sim a b) (g : Sim b c) : Sim a c := h.trans g
 
 /-! ### whole replays, the serialised form -/
-
-theorem cE_crash (c : Cmd) : (cE c == Cmd.crash) = (c == Cmd.crash) := by cases c <;> rfl
-
-theorem contains_crash_cE : ∀ (cmds : List Cmd), cmds.contains .crash = (cmds.map cE).contains .crash
-  | [] => rfl
-  | c :: cs => by
-    simp only [List.map_cons, List.contains_cons]
-    rw [contains_crash_cE cs]
-    have h1 : (Cmd.crash == c) = (c == Cmd.crash) := by cases c <;> rfl
-    have h2 : (Cmd.crash == cE c) = (cE c == Cmd.crash) := by cases c <;> rfl
-    rw [h1, h2, cE_crash]
-
-theorem cE_exit_id {c : Cmd} (h : c.isExit = true) : cE c = c := by cases c <;> simp_all [Cmd.isExit, cE]
 
 theorem lastExitOf_cE (cmds : List Cmd) : lastExitOf cmds = lastExitOf (cmds.map cE) := by
   unfold lastExitOf
@@ -471,7 +73,7 @@ theorem rewind_init_sim (cfg : Cfg) (now now' : Int) :
   obtain ⟨h2, r2⟩ := rewindLoop_empty now' (sortedSteps cfg) initState [] (fun _ => rfl)
   refine ⟨by simp only [rewind, r1, r2], fun n => ?_⟩
   simp only [rewind, h1 n, h2 n]
-  exact SSim.rfl' _
+  exact SimSS.refl _
 
 theorem tmReplayAt_sim (cfg : Cfg) {pol : Policy} (hp : TimeIndep pol) (ticks : List Tick) (now now' : Int) :
     match tmReplayAt cfg pol ticks now, tmReplayAt cfg pol ticks now' with
@@ -479,21 +81,6 @@ theorem tmReplayAt_sim (cfg : Cfg) {pol : Policy} (hp : TimeIndep pol) (ticks : 
     | none, none => True
     | _, _ => False :=
   tmReplayFrom_sim cfg hp now now' ticks none (rewind_init_sim cfg now now')
-
-/-- `to_serialized` writes in-progress invocations as bare events: the reloaded context does not
-see `first_attempt_at` -/
-theorem roundtrip_sim (cfg : Cfg) {st st' : State} (h : Sim st st') : roundtrip cfg st = roundtrip cfg st' := by
-  have hser : ser cfg st = ser cfg st' := by
-    simp only [ser, h.1, SerState.mk.injEq, true_and]
-    apply List.map_congr_left
-    intro s _
-    have hs := h.2 s
-    have hip : (st.workers s).inProg.map (·.ev) = (st'.workers s).inProg.map (·.ev) := by
-      have := congrArg (List.map (·.ev)) hs.inProg
-      simpa [List.map_map, Function.comp_def, ipE] using this
-    simp only [serStep, hs.queue, hs.collected, hs.waiters, hip]
-  simp only [roundtrip, hser]
-
 
 /-! ### the live run against its own log -/
 
